@@ -42,6 +42,16 @@ class Harness(Elaboratable):
         self._inputs[name] = (signal, const)
         return signal
 
+    def sym_reg(self, signal, const_input_name):
+        """start the register `signal` (a flip-flop of the real design or of the monitor) at the value of the const harness
+        input `const_input_name` instead of its reset value -- a symbolic pre-state restricted to this one register.  The
+        replay sets the register to the same value before the first clock edge.  State this in ASSUMPTIONS/BOUNDS: a
+        counterexample that needs such a start value is only believed if the value is reachable."""
+        if not hasattr(self, "_sym_regs"):
+            self._sym_regs = []
+        assert self._inputs[const_input_name][1], "sym_reg needs a const input"
+        self._sym_regs.append((signal, const_input_name))
+
     def _reg(self, table, prefix, name, init=0):
         assert name not in table, name
         s = Signal(1, name=f"{prefix}_{name}", init=init)
